@@ -89,9 +89,11 @@ def classify(ctx, mode, seed, ops, out, model, srcs, maxkeep=40):
                 continue
             f = {"mode": mode, "seed": seed, "case": rec.get("case", i), "defect": defect,
                  "name": rec.get("name", ""), "source": vlib.clip(rec.get("src", ""), 6000),
-                 "rerun": "save `source` as p.mpcl; MPCLDIR=/repo harness c03 src -file p.mpcl -in <input>  "
-                          "(model: echo 'c03 <input> <sexp of the op line>' | lean/.lake/build/bin/drv_c03); "
-                          "or: c03 %s -seed %d -n <N> -only %s" % (mode, seed, rec.get("case", i))}
+                 "rerun": "cd /verif/harness && go build -tags verif -o /tmp/c03 ./cmd/c03 && MPCLDIR=%s /tmp/c03 %s "
+                          "-seed %d -n %d -tier %s -only %s -ops /tmp/o -out /tmp/r -srcs /tmp/s && "
+                          "/verif/lean/.lake/build/bin/drv_c03 < /tmp/o | diff - /tmp/r   "
+                          "(one program; or save `source` as p.mpcl and run: /tmp/c03 src -file p.mpcl -in <input>)"
+                          % (vlib.REPO, mode, seed, int(rec.get("case", i)) + 1, ctx.tier, rec.get("case", i))}
             if a.startswith("compile-"):
                 f["sig"] = SIG_REJECT
                 f["impl"] = vlib.clip(a, 400)
@@ -144,7 +146,7 @@ def run(ctx):
         if quick:
             jobs += [("gen", 300, ctx.seed)]
         else:
-            jobs += [("gen", 2500, ctx.seed + k * 1000) for k in range(6)]
+            jobs += [("gen", 2500, ctx.seed + k * 1000003) for k in range(6)]  # the PRNG streams of seeds s and s+n overlap after n cases
         results = []
         with concurrent.futures.ThreadPoolExecutor(max_workers=1 if quick else 6) as ex:
             futs = [ex.submit(one_run, ctx, m, n, s) for (m, n, s) in jobs]
